@@ -319,6 +319,35 @@ let codec_case (line : string) : string =
                | _ -> failwith "conv")
   | _ -> failwith "bad codec op"
 
+(* ---- domain handshake ---- *)
+let hstate_str = function Disconnected -> "disconnected" | Connecting -> "connecting" | SendingName -> "sending_name"
+  | AwaitingStatus -> "awaiting_status" | AwaitingChallenge -> "awaiting_challenge" | SendingChallengeReply -> "sending_challenge_reply"
+  | AwaitingChallengeAck -> "awaiting_challenge_ack" | Connected -> "connected" | Failed -> "failed"
+let herr_str = function EStateTransition -> "trans" | ENameTooLong -> "namelen" | EInvalidMessage -> "invalid" | ERefused -> "refused"
+  | ENoChallenge -> "nochallenge" | EAuthFailed -> "auth"
+let handshake_case (line : string) : string =
+  match String.split_on_char ';' line with
+  | [] -> failwith "empty"
+  | cfgs :: ops ->
+      let c = (match words cfgs with
+        | [nm; ck; fl; cr] -> { h_name = bytes_of_hex nm; h_cookie = bytes_of_hex ck; h_flags = n_of_dec fl; h_creation = n_of_dec cr }
+        | _ -> failwith "cfg") in
+      let st = ref hs_init in
+      let out = ref [] in
+      List.iter (fun op -> match words op with
+        | [] -> ()
+        | w ->
+          let o = (match w with
+            | ["BC"] -> BeginConnect | ["PSN"] -> PrepareSendName | ["HS"; d] -> HandleStatus (bytes_of_hex d) | ["PC"] -> PrepareComplement
+            | ["HC"; d; g] -> HandleChallenge (bytes_of_hex d, n_of_dec g) | ["PCR"] -> PrepareChallengeReply
+            | ["HCA"; d] -> HandleChallengeAck (bytes_of_hex d) | ["DC"] -> Disconnect | _ -> failwith "bad op") in
+          let (s1, r) = hstep md5 c !st o in
+          st := s1;
+          let rs = (match r with OUnit -> "ok" | OBytes b -> "b:" ^ hex_of_bytes b | OErr e -> "e:" ^ herr_str e) in
+          out := (rs ^ "/" ^ hstate_str s1.st) :: !out) ops;
+      let nego = (match !st.nego with Some f -> "nego=" ^ udec_of_n f | None -> "nego=none") in
+      String.concat " " (List.rev (nego :: !out))
+
 (* ---- domain control ---- *)
 let id_of_term (t : term) : string = match t with
   | TInt z -> dec_of_z z
@@ -406,6 +435,7 @@ let () =
     | "codec" -> codec_case
     | "ord" -> ord_case
     | "control" -> control_case
+    | "handshake" -> handshake_case
     | _ -> prerr_endline ("unknown domain " ^ domain); exit 2 in
   (try
     while true do
